@@ -136,6 +136,9 @@ def run_unit(unit, ctx):
         R.fps.append(fp)
     orc = O.Oracle(defn)
     points = [gen.point(rng, defn) for _ in range(N_POINTS[ctx["tier"]])]
+    # consecutive calls with distinct inputs that hash alike
+    points += list(gen.collision_twins(rng, defn, points[0]))
+    R.stats.inc("hash_alike_consecutive_call_pairs")
     outs = {}
     for cse in (True, False):
         tag = "cse_on" if cse else "cse_off"
